@@ -1,5 +1,5 @@
 // copy to: pkg/core ; run: go test ./pkg/core/ -run 'TestC03Defect_Historic' -count=1
-// Of the three tests only TestC03Defect_HistoricFakeBlockTime belongs to finding 90 (fixed); the other two are recorded in DESIGN section 6 as not acted upon.
+// TestC03Defect_HistoricFakeBlockTime is finding 90 and TestC03Defect_HistoricAtHardforkHeight finding 91 (both fixed); TestC03Defect_HistoricLedgerTxGetters is recorded in DESIGN section 6 as not acted upon.
 // Three defects of the unmodified tree around Blockchain.GetTestHistoricVM: a
 // read-only script run against the state of height h does not return what the
 // live node returned at height h.
